@@ -37,7 +37,7 @@ class TemplateError(Exception):
     pass
 
 
-GHOST_OK = re.compile(r'^(proof\s*\{|let\s+ghost\b|let\s+tracked\b|assert\b|assert_by\b|reveal\b|hide\s*\(|broadcast\s+use\b|//|/\*|\}|$)')
+GHOST_OK = re.compile(r'^(proof\s*\{|let\s+ghost\b|let\s+tracked\b|assert\b|assert_by\b|reveal\b|hide\s*\(|broadcast\s+use\b|#\[verifier::loop_isolation\(false\)\]|//|/\*|\}|$)')
 LABEL_RE = re.compile(r'//#\s*([A-Z0-9,]+|-)\s+(\S+)\s*$')
 
 
